@@ -126,6 +126,9 @@ pub fn cross_match_scenario(t: &mut Tape) -> (GProg, Id, &'static str) {
 }
 
 pub fn case(tape: &[u32]) -> CaseOutcome {
+    if tape.len() == 2 && tape[0] == ZERO_WIDTH_TAG {
+        return zero_width_probe(tape[1] as usize);
+    }
     let (aux, main) = split_tape(tape);
     let mut t = Tape::new(&aux);
     let mut gt = Tape::new(&main);
@@ -446,6 +449,46 @@ pub fn outer_context(err: &ExecutionError) -> OuterContext {
     OuterContext::Statement(out)
 }
 
+const ZERO_WIDTH_TAG: u32 = 0xFFFF_FF20;
+
+/// Fixed probe: the stanza matches every named node, the fault sits behind a test that lets it
+/// fire on the first node without text (a zero-width recovery node at the end of a line); the
+/// pretty rendering has to show that node's source line.
+fn zero_width_probe(i: usize) -> CaseOutcome {
+    let source = ["def f(x):\n  return x.\n", "class A:\n  def m(self):\n    return self.\nx = 1\n"][i % 2];
+    let lazy = i >= 2;
+    let dsl = "(_) @n {\n  if (eq (source-text @n) \"\") {\n    let bad = (plus \"a\" 1)\n  }\n}\n";
+    let file = match load(dsl) {
+        Ok(Ok(f)) => f,
+        _ => return CaseOutcome::Discard("probe file rejected"),
+    };
+    let tree = pysrc::parse(source);
+    let index = TreeIndex::new(&tree);
+    let target = match index.nodes.iter().find(|n| n.named && n.start_byte == n.end_byte) {
+        Some(n) => n.clone(),
+        None => return CaseOutcome::Discard("no zero-width named node in the probe source"),
+    };
+    let (r, _) = run(&file, &tree, &index, source, &Default::default(), &ExecOpts { lazy, debug: None });
+    let err = match r {
+        LibRun::Err(e) => e,
+        LibRun::Panic(p) => return CaseOutcome::Fail(Failure::new(format!("C20:probe:{}", p.signature()), p.message, json!({"dsl": dsl, "source": source}))),
+        _ => return CaseOutcome::Fail(Failure::new("C20:probe:no-error", "the fault on the zero-width node did not fire".to_string(), json!({"dsl": dsl, "source": source}))),
+    };
+    let pretty = match render_exec_error(&err, source, dsl) {
+        Ok((_, p)) => p,
+        Err(p) => return CaseOutcome::Fail(Failure::new(format!("C20:probe:render-{}", p.signature()), p.message, json!({"dsl": dsl, "source": source}))),
+    };
+    let line = source.lines().nth(target.start_row).unwrap_or("");
+    if !pretty.contains(line) || !pretty.contains("let bad = (plus") {
+        return CaseOutcome::Fail(Failure::new(
+            "C20:probe:pretty-misses-source-line",
+            format!("display_pretty does not show the source line {:?} of the zero-width ({}) node the stanza matched, or the DSL line of the failing statement", line, target.kind),
+            json!({"dsl": dsl, "source": source, "pretty": pretty, "lazy": lazy}),
+        ));
+    }
+    CaseOutcome::Pass(CaseReport { fingerprint: fingerprint(&("zero-width-probe", i)), nontrivial: true, labels: vec!["probe:zero-width-match-at-end-of-line".into()], counters: vec![], sample: None, evaluations: 1 })
+}
+
 pub fn spec(tier: &str) -> Spec {
     let mut s = Spec::new("C20", tier, 6_000, 80_000, 1200);
     s.rule = "valid generated programs (risky choices switched off) with exactly one run-time fault from the catalogue (type errors, unknown function, conflicting attribute, duplicate / undefined scoped variable, undefined edge, bad regex capture, format arity, overflow, failing call inside a list, free variable in a shorthand) injected at a random statement position and block depth, on trees with many matches; cases where the fault is not reached or another statement fails first are discarded. Both modes. Oracle: the reference interpreter's first failure site. The error must be InContext(Statement ..): stanza location = start of that stanza's query, node kind / position = the node the stanza matched when the fault fired (strict: that match; lazy: any match of the stanza), statement location = the failing statement (strict) or the failing statement, one nested in the fault construct or one enclosing it (lazy); lazy conflicts carry two statement contexts; display_pretty contains the cited DSL lines and the source line. Non-trivial: fault at block depth >= 1, or in stanza >= 2, or firing first in match >= 2. Distinct = fingerprint of (DSL text, source).".into();
@@ -456,6 +499,8 @@ pub fn spec(tier: &str) -> Spec {
 pub fn run_check(tier: &str) -> i32 {
     let started = std::time::Instant::now();
     let spec = spec(tier);
-    let result = run_tapes(&spec, case);
+    let probes: Vec<usize> = (0..4).collect();
+    let r0 = run_fixed(&spec, &probes, |i| zero_width_probe(*i), |i| vec![ZERO_WIDTH_TAG, *i as u32]);
+    let result = merge_results(r0, run_tapes(&spec, case));
     finish(&spec, result, started)
 }
